@@ -48,6 +48,8 @@ def run(ctx):
     ctx.rule("R6", "name/position agreement on long positional interfaces; interchangeable Fock builders have identical signatures")
     ctx.rule("R7", "block reshapes keep axis meaning: every reshape/transpose chain between (mol[,spin],N,N) matrices and (pair,orb,orb) blocks is order-consistent")
     ctx.rule("R8", "integral pipeline hygiene: no pure tensor result is discarded; the h_pp floor of 0.1 eV feeds rho_2")
+    ctx.rule("R9", "local-frame two-centre integrals equal the Dewar-Thiel point-charge multipole model (first-principles oracle, all 22 + 4 + 1 elements); core-electron elements select the right integrals")
+    check_local_frame_integrals(ctx, "R9")
     check_block_reshapes(ctx, "R7")
     check_pipeline_hygiene(ctx, "R8")
 
@@ -487,3 +489,96 @@ def check_block_reshapes(ctx, rid):
                           f"{st.targets[0].id}: {' -> '.join(['x'.join(a) for a in got])} is the expected {'block' if root.id == 'P0' else 'matrix'} layout",
                           f"{st.targets[0].id} ends with axes {got} but the expected layout is {want[wd]}")
     ctx.floor(rid, 10)
+
+
+LF = "seqm/seqm_functions/two_elec_two_center_int_local_frame.py"
+
+
+def interpret_local_frame(repo):
+    """(ElemExec after reading the energy kernel, symbols) -- shared with C01 (derivative kernel)"""
+    from .. import multipole as mp
+    from ..elemexec import ElemExec
+    m = repo.mod(LF)
+    f = m.func("two_elec_two_center_int_local_frame")
+    r, S = mp.symbols()
+    base = {"r0": r, "da0": S["D1a"], "db0": S["D1b"], "qa0": S["D2a"], "qb0": S["D2b"], "rho0a": S["rho0a"], "rho0b": S["rho0b"], "rho1a": S["rho1a"],
+            "rho1b": S["rho1b"], "rho2a": S["rho2a"], "rho2b": S["rho2b"], "ev": S["ev"]}
+    params = [a.arg for a in f.args.args]
+    for need in ("r0", "da0", "db0", "qa0", "qb0", "rho0a", "rho0b", "rho1a", "rho1b", "rho2a", "rho2b"):
+        if need not in params:
+            raise AnalysisError(f"two_elec_two_center_int_local_frame: parameter {need} not found")
+    ex = ElemExec(base)
+    ex.run(f.body)
+    return m, f, ex, r, S, base
+
+
+def _num_zero(expr, seed, n=3, tol="1e-28"):
+    import random
+    import sympy as sp
+    rng = random.Random(seed)
+    syms = sorted(expr.free_symbols, key=lambda s_: s_.name)
+    for _ in range(n):
+        vals = {s_: sp.Rational(rng.randint(5, 60), 11) for s_ in syms}
+        try:
+            v = sp.N(expr.subs(vals), 45)
+        except Exception:  # noqa
+            return False
+        if abs(v) > sp.Float(tol):
+            return False
+    return True
+
+
+def check_local_frame_integrals(ctx, rid):
+    import sympy as sp
+    from .. import multipole as mp
+    repo = ctx.repo
+    m, f, ex, r, S, base = interpret_local_frame(repo)
+    have = sorted(k for (a, k) in ex.elems if a == "ri")
+    if have != list(range(22)) or sorted(k for (a, k) in ex.elems if a == "riXH") != [0, 1, 2, 3] or "riHH" not in ex.env:
+        raise AnalysisError(f"local-frame kernel: elements not interpreted (ri: {have})")
+    # the orientation of the local z axis on each centre is a convention: fitted on the two dipole-monopole integrals, then fixed
+    fit = []
+    for sa, sb in mp.conventions():
+        if _num_zero(ex.elems[("ri", 1)] - mp.integral("SO", "SS", sa, sb), 11) and _num_zero(ex.elems[("ri", 4)] - mp.integral("SS", "SO", sa, sb), 12):
+            fit.append((sa, sb))
+    if len(fit) != 1:
+        ctx.fail(rid, m, f, "two_elec_two_center_int_local_frame", "(so|ss), (ss|os)", f"the dipole-monopole integrals fit {len(fit)} axis conventions of the point-charge model (expected exactly one)")
+        return
+    sa, sb = fit[0]
+    tab = mp.table(sa, sb)
+    for k in range(22):
+        ka, kb = mp.ORDER[k]
+        ok = _num_zero(ex.elems[("ri", k)] - tab[k], 100 + k)
+        ctx.check(ok, rid, m, f, "two_elec_two_center_int_local_frame", f"ri[{k + 1}] = ({ka}|{kb})",
+                  f"heavy-heavy integral {k + 1} ({ka}|{kb}) equals the sum over point charges of ev q_i q_j / sqrt(r_ij^2 + (rho_l^A + rho_l'^B)^2)",
+                  f"heavy-heavy integral {k + 1} ({ka}|{kb}) differs from the Dewar-Thiel point-charge model (axis convention {sa},{sb})")
+    for k in range(4):
+        ka, kb = mp.ORDER[k]
+        ok = _num_zero(ex.elems[("riXH", k)] - tab[k], 200 + k)
+        ctx.check(ok, rid, m, f, "two_elec_two_center_int_local_frame", f"riXH[{k + 1}] = ({ka}|ss_H)", f"heavy-hydrogen integral {k + 1} ({ka}|ss) equals the point-charge model",
+                  f"heavy-hydrogen integral {k + 1} ({ka}|ss) differs from the point-charge model")
+    ctx.check(_num_zero(ex.env["riHH"] - tab[0], 300), rid, m, f, "two_elec_two_center_int_local_frame", "riHH = (ss|ss)", "hydrogen-hydrogen integral equals ev / sqrt(r^2 + (rho0a + rho0b)^2)",
+              "hydrogen-hydrogen (ss|ss) differs from the Klopman-Ohno form")
+    # core-electron elements: which integral, which partner charge
+    want = {0: ("nj", 0), 1: ("nj", 1), 2: ("nj", 2), 3: ("nj", 3), 4: ("ni", 0), 5: ("ni", 4), 6: ("ni", 10), 7: ("ni", 11)}
+    n = 0
+    for st in f.body:
+        if isinstance(st, ast.Assign) and isinstance(st.targets[0], ast.Subscript) and norm(st.targets[0].value) == "core":
+            try:
+                k = int(fold(st.targets[0].slice.elts[-1]))
+            except Exception:  # noqa
+                continue
+            v = st.value
+            n += 1
+            good = isinstance(v, ast.BinOp) and isinstance(v.op, ast.Mult) and k in want
+            if good:
+                z, integ = norm(v.left).replace(" ", ""), v.right
+                try:
+                    ki = int(fold(integ.slice.elts[-1]))
+                except Exception:  # noqa
+                    ki = None
+                good = z == f"tore[{want[k][0]}[XX]]" and norm(integ.value) == "ri" and ki == want[k][1]
+            ctx.check(good, rid, m, st, "two_elec_two_center_int_local_frame", f"core[{k}]", f"core[{k}] = Z_{want.get(k, ('?',))[0][1:] if k in want else '?'} x ri[{want[k][1] + 1 if k in want else '?'}] (attraction of the other core)",
+                      f"core[{k}] = `{short(norm(v), 50)}` is not the partner's core charge times the matching (mu nu|ss) integral")
+    if n < 8:
+        raise AnalysisError("core-electron stores not found")
